@@ -417,7 +417,7 @@ func RunCheck(opts *CheckOpts) int {
 	// functions under contract for this property
 	var keys []string
 	for k, c := range prog.Contracts {
-		if c.Trusted && !((c.Sequential || len(c.Exhaustive) > 0 || len(c.Criticals) > 0 || c.ReleasesLock || c.HasErrorsFrom) && hasProp(c, prop)) {
+		if c.Trusted && !((c.Sequential || len(c.Exhaustive) > 0 || len(c.Criticals) > 0 || c.ReleasesLock || c.HasErrorsFrom || len(c.Forbids) > 0 || c.NoReentrantLock || len(c.Handled) > 0) && hasProp(c, prop)) {
 			continue
 		}
 		if opts.AllFuncs || hasProp(c, prop) {
@@ -476,7 +476,7 @@ func RunCheck(opts *CheckOpts) int {
 			r.Err = "contract does not bind: function " + ShortKey(k) + " not found"
 			continue
 		}
-		if c.Trusted && !c.Sequential && (len(c.Exhaustive) > 0 || len(c.Criticals) > 0 || c.ReleasesLock || c.HasErrorsFrom) && fn.Blocks != nil {
+		if c.Trusted && !c.Sequential && (len(c.Exhaustive) > 0 || len(c.Criticals) > 0 || c.ReleasesLock || c.HasErrorsFrom || len(c.Forbids) > 0 || c.NoReentrantLock || len(c.Handled) > 0) && fn.Blocks != nil {
 			// structural obligations only: the body is not verified
 			g := NewGen(prog, fn, c)
 			r.Gen = g
@@ -506,6 +506,20 @@ func RunCheck(opts *CheckOpts) int {
 			}
 			if c.HasErrorsFrom {
 				obs = append(obs, errorsFromObligations(prog, g, fn, k, c)...)
+			}
+			if len(c.Forbids) > 0 {
+				obs = append(obs, forbidsObligations(g, fn, k, c)...)
+			}
+			if c.NoReentrantLock {
+				obs = append(obs, reentrantLockObligations(prog, g, fn, k)...)
+			}
+			if len(c.Handled) > 0 {
+				ho, e3 := handledObligations(g, fn, k, c)
+				if e3 != "" {
+					r.Err = "contract does not bind: " + e3
+					continue
+				}
+				obs = append(obs, ho...)
 			}
 			r.Obligations = append(r.Obligations, obs...)
 			all = append(all, obs...)
@@ -591,6 +605,14 @@ func RunCheck(opts *CheckOpts) int {
 		}
 		if c.NoReentrantLock {
 			g.Obls = append(g.Obls, reentrantLockObligations(prog, g, fn, k)...)
+		}
+		if len(c.Handled) > 0 {
+			ho, e3 := handledObligations(g, fn, k, c)
+			if e3 != "" {
+				r.Err = "contract does not bind: " + e3
+				continue
+			}
+			g.Obls = append(g.Obls, ho...)
 		}
 		if c.HasErrorsFrom {
 			g.Obls = append(g.Obls, errorsFromObligations(prog, g, fn, k, c)...)
@@ -2253,3 +2275,216 @@ func reentrantLockObligations(prog *Program, g *Gen, fn *ssa.Function, key strin
 	}
 	return out
 }
+
+
+// chanFromField: v is a channel loaded from a struct field called name.
+func chanFromField(v ssa.Value, name string) bool {
+	for i := 0; i < 4; i++ {
+		switch x := v.(type) {
+		case *ssa.ChangeType:
+			v = x.X
+			continue
+		case *ssa.UnOp:
+			if x.Op != token.MUL {
+				return false
+			}
+			fa, ok := x.X.(*ssa.FieldAddr)
+			if !ok {
+				return false
+			}
+			st, ok := deref(fa.X.Type()).Underlying().(*types.Struct)
+			return ok && fa.Field < st.NumFields() && st.Field(fa.Field).Name() == name
+		case *ssa.Field:
+			st, ok := x.X.Type().Underlying().(*types.Struct)
+			return ok && x.Field < st.NumFields() && st.Field(x.Field).Name() == name
+		}
+		break
+	}
+	return false
+}
+
+func deref(t types.Type) types.Type {
+	if p, ok := t.Underlying().(*types.Pointer); ok {
+		return p.Elem()
+	}
+	return t
+}
+
+// receivesFromField: the instruction takes a value from a channel held in field name;
+// returns the tuple index of the value when the instruction yields a tuple (-1: the
+// instruction's own value).
+func receivesFromField(in ssa.Instruction, name string) (bool, int) {
+	switch x := in.(type) {
+	case *ssa.UnOp:
+		if x.Op == token.ARROW && chanFromField(x.X, name) {
+			if x.CommaOk {
+				return true, 0
+			}
+			return true, -1
+		}
+	case *ssa.Select:
+		ri := 0
+		for _, s := range x.States {
+			if s.Dir != types.RecvOnly {
+				continue
+			}
+			if chanFromField(s.Chan, name) {
+				return true, 2 + ri
+			}
+			ri++
+		}
+	}
+	return false, 0
+}
+
+func derivedFrom(v, src ssa.Value, depth int) bool {
+	if v == src {
+		return true
+	}
+	if depth > 6 {
+		return false
+	}
+	switch x := v.(type) {
+	case *ssa.Phi:
+		for _, e := range x.Edges {
+			if derivedFrom(e, src, depth+1) {
+				return true
+			}
+		}
+	case *ssa.ChangeInterface:
+		return derivedFrom(x.X, src, depth+1)
+	case *ssa.MakeInterface:
+		return derivedFrom(x.X, src, depth+1)
+	case *ssa.ChangeType:
+		return derivedFrom(x.X, src, depth+1)
+	case *ssa.TypeAssert:
+		return derivedFrom(x.X, src, depth+1)
+	case *ssa.Extract:
+		return derivedFrom(x.Tuple, src, depth+1)
+	}
+	return false
+}
+
+// handledObligations: structural obligations of `received F handledby A, B` clauses. For
+// every instruction that takes a value from the channel in field F, every control-flow
+// path from the point where the value is available must pass a call of one of the named
+// callees that has the value among its arguments before it reaches a return or another
+// receive from that channel. A receive whose value is discarded fails outright.
+func handledObligations(g *Gen, fn *ssa.Function, key string, c *Contract) ([]*Obligation, string) {
+	var out []*Obligation
+	for hi, hc := range c.Handled {
+		by := map[string]bool{}
+		for _, n := range hc.By {
+			by[n] = true
+		}
+		clause := fmt.Sprintf("received %s handledby %s", hc.Field, strings.Join(hc.By, ", "))
+		nrecv := 0
+		for _, b := range fn.Blocks {
+			for _, in := range b.Instrs {
+				ok, ti := receivesFromField(in, hc.Field)
+				if !ok {
+					continue
+				}
+				name := fmt.Sprintf("%s#handled.%d/%d", ShortKey(key), hi, nrecv)
+				nrecv++
+				// where the received value becomes available
+				var val ssa.Value
+				var start ssa.Instruction
+				if ti < 0 {
+					val = in.(ssa.Value)
+					start = in
+				} else {
+					for _, r := range *in.(ssa.Value).Referrers() {
+						if e, ok := r.(*ssa.Extract); ok && e.Index == ti {
+							val, start = e, e
+						}
+					}
+				}
+				fail := func(why string, at token.Pos) {
+					out = append(out, &Obligation{Name: name, Kind: "handled", Fn: key, Clause: clause + ": " + why, Pos: g.pos(at), Reach: True, Goal: False, Gen: g})
+				}
+				if val == nil {
+					fail("the received value is discarded", in.Pos())
+					continue
+				}
+				// forward search for a path that escapes unhandled
+				type pt struct {
+					b *ssa.BasicBlock
+					i int
+				}
+				si := -1
+				for i, x := range start.Block().Instrs {
+					if x == start {
+						si = i
+					}
+				}
+				seen := map[*ssa.BasicBlock]bool{}
+				work := []pt{{start.Block(), si + 1}}
+				bad := ""
+				var badPos token.Pos
+				for len(work) > 0 && bad == "" {
+					p := work[len(work)-1]
+					work = work[:len(work)-1]
+					handled := false
+					for i := p.i; i < len(p.b.Instrs) && !handled && bad == ""; i++ {
+						x := p.b.Instrs[i]
+						if ci, ok := x.(ssa.CallInstruction); ok {
+							cc := ci.Common()
+							cn := ""
+							if cc.IsInvoke() {
+								cn = cc.Method.Name()
+							} else if f := cc.StaticCallee(); f != nil {
+								cn = f.Name()
+							}
+							if by[cn] {
+								for _, a := range cc.Args {
+									if derivedFrom(a, val, 0) {
+										handled = true
+									}
+								}
+							}
+							if handled {
+								if _, isDefer := x.(*ssa.Defer); isDefer || isGo(x) {
+									handled = true
+								}
+								break
+							}
+						}
+						if _, ok := x.(*ssa.Return); ok {
+							bad, badPos = "a path returns without handing the value on", x.Pos()
+							if badPos == token.NoPos {
+								badPos = in.Pos()
+							}
+						}
+						if again, _ := receivesFromField(x, hc.Field); again {
+							bad, badPos = "a path takes the next value without handing this one on", x.Pos()
+							if badPos == token.NoPos {
+								badPos = in.Pos()
+							}
+						}
+					}
+					if handled || bad != "" {
+						continue
+					}
+					for _, s := range p.b.Succs {
+						if !seen[s] {
+							seen[s] = true
+							work = append(work, pt{s, 0})
+						}
+					}
+				}
+				if bad != "" {
+					fail(bad, badPos)
+				} else {
+					out = append(out, &Obligation{Name: name, Kind: "handled", Fn: key, Clause: clause, Pos: g.pos(in.Pos()), Reach: True, Goal: True, Gen: g})
+				}
+			}
+		}
+		if nrecv == 0 {
+			return nil, fmt.Sprintf("received %s: the function takes nothing from a channel in a field of that name", hc.Field)
+		}
+	}
+	return out, ""
+}
+
+func isGo(in ssa.Instruction) bool { _, ok := in.(*ssa.Go); return ok }
